@@ -177,7 +177,7 @@ PROPS["C12"] = {
     "level_text": "partial: start value, registration, parameter setters and regeneration keep every value up to the regeneration point (loop invariant over an ASSUMED contract of the numpy-based _generate_next, pinned to its text); shock contract; the generation algebra and the zero-volatility path only by a bounded stand-in; distribution of returns not decided",
     "level_note": COMMON_NOTE + "; numpy/scipy trusted; contract of _generate_next assumed",
     "technique": "contracts + VC generation for the pure-Python part; assumed (pinned) contract and bounded run-time check for the numpy part",
-    "explanation": "deductive: add_market, change_volatility, change_drift, get_fundamental_price (prefix preservation, termination variant) and Market.change_fundamental_price; assumed: contract of _generate_next; bounded: that contract, zero-volatility closed form, L.Z + drift with L.L^T = diag(vol).C.diag(vol) for both key orders of a correlation pair",
+    "explanation": "deductive: add_market, change_volatility, change_drift, get_fundamental_price (prefix preservation, termination variant) and Market.change_fundamental_price; assumed: contract of _generate_next; bounded: that contract, zero-volatility closed form, L.Z + drift with L.L^T = diag(vol).C.diag(vol) for both key orders of a correlation pair, again after a correlation or a volatility has been given a new value between two chunks",
     "tasks": ["Fundamentals.add_market", "Fundamentals.change_volatility", "Fundamentals.change_drift", "Fundamentals.get_fundamental_price", "Market.change_fundamental_price"],
     "bounded": [{"name": "_generate_next contract, zero-volatility path, covariance algebra", "replayer": "fundamentals", "bound": "150 (quick) / 3000 (thorough) seeded cases per clause: 1-4 markets, chunk 3/5/100, 1-6 operations", "timeout": 1500}],
     "not_decided": ["that sample log-returns have mean = drift, standard deviation = volatility and the configured correlations (a statement about numpy's standard_normal)"],
